@@ -142,4 +142,8 @@ class HyperCubeExperimenter(experimenter.Experimenter):
     self._exptr.evaluate(orig_suggestions)
 
     for suggestion, orig_suggestion in zip(suggestions, orig_suggestions):
-      suggestion.final_measurement = orig_suggestion.final_measurement
+      # Carry over the whole outcome: an infeasible trial stays infeasible.
+      suggestion.complete(
+          orig_suggestion.final_measurement or vz.Measurement(),
+          infeasibility_reason=orig_suggestion.infeasibility_reason,
+      )
